@@ -360,6 +360,35 @@ pub fn record(seed: u64, n: usize, out: &str) {
             }
             _ => {}
         }
+        // the same rejection rules hold on the way in from a stored document: save a valid market, give ONE stored
+        // quote a different settlement date in the text, and load it - "never yield rates" covers this entry point too
+        if i % 4 == 1 && quotes.len() >= 2 {
+            if let Outcome::Ok(Ok(f)) = try_new(&quotes, &base) {
+                if let Ok(txt) = serde_json::to_string(&f) {
+                    let mut doc: Value = serde_json::from_str(&txt).unwrap();
+                    let k = 1 + r.below(quotes.len() as u64 - 1) as usize;
+                    let stored_order: Vec<(String, String)> = rateslib::verif::fxrates_quotes(&f).iter().map(|(l, rr, _, _)| (l.clone(), rr.clone())).collect();
+                    let was_none = doc["fx_rates"][k]["settlement"].is_null();
+                    doc["fx_rates"][k]["settlement"] = if was_none { json!("2024-10-02T00:00:00") } else if r.coin() { Value::Null } else { json!("2031-03-05T00:00:00") };
+                    let loaded = guard(|| serde_json::from_str::<FXRates>(&doc.to_string()).map_err(|e| e.to_string()));
+                    // the quotes as the altered document states them (tag 1 = the altered date: any value different from the others)
+                    let qj: Vec<Value> = stored_order.iter().enumerate().map(|(j, (l, rr))| {
+                        let q = quotes.iter().find(|q| &q.l == l && &q.r == rr).unwrap();
+                        let mut v = q.json();
+                        if j == k { v["settle"] = json!(if was_none { 19998 } else { if doc["fx_rates"][k]["settlement"].is_null() { 0 } else { 22343 } }); }
+                        v
+                    }).collect();
+                    let basej = vec![rateslib::verif::fxrates_currencies(&f)[0].clone()];
+                    let names = probe_names(&quotes);
+                    let evj = match loaded {
+                        Outcome::Ok(Ok(g)) => json!({"op":"new","via":"json","quotes":qj,"base":basej,"o":"ok","state":state_json(&g, &names, &mut r)}),
+                        Outcome::Ok(Err(_)) => json!({"op":"new","via":"json","quotes":qj,"base":basej,"o":"err"}),
+                        Outcome::Panic(_) => json!({"op":"new","via":"json","quotes":qj,"base":basej,"o":"panic"}),
+                    };
+                    o.emit(&json!({"h": i, "key": format!("fx/rnd/{}/load-altered-settlement", i), "ev": [evj]}));
+                }
+            }
+        }
         let nops = r.below(13) as usize;
         let ops = rand_ops(&mut r, &quotes, nops);
         wd.enter(&format!("rnd/{}", i));
